@@ -113,6 +113,61 @@ func (c *allocCtx) unboundedSources(v ssa.Value) []ssa.Value {
 				add(c.unboundedSources(a))
 			}
 		}
+		// a pure single-block accessor of the module (`func (s tableSection) end() int64 { return int64(s.offset) +
+		// int64(s.length) }`): its result depends on the fields of its arguments that it reads; they are sources here
+		// when the caller loads the same field of the same object
+		if sc := x.Common().StaticCallee(); sc != nil && c.p.inModule(fnPkg(sc)) && pureAccessor(sc) {
+			ret := sc.Blocks[0].Instrs[len(sc.Blocks[0].Instrs)-1].(*ssa.Return)
+			for _, rv := range ret.Results {
+				for _, src := range c.unboundedSources(rv) {
+					var par *ssa.Parameter
+					fld, byValue := -1, false
+					switch y := src.(type) {
+					case *ssa.Field:
+						par, _ = y.X.(*ssa.Parameter)
+						fld, byValue = y.Field, true
+					case *ssa.UnOp:
+						if fa, ok := y.X.(*ssa.FieldAddr); ok {
+							par, _ = fa.X.(*ssa.Parameter)
+							fld = fa.Field
+							// a value parameter spilled to a local
+							if al, isAl := fa.X.(*ssa.Alloc); isAl {
+								if st := singleStore(al); st != nil {
+									par, _ = st.Val.(*ssa.Parameter)
+									byValue = true
+								}
+							}
+						}
+					}
+					if par == nil {
+						continue
+					}
+					var obj ssa.Value // the address of the object in the caller
+					for k, q := range sc.Params {
+						if q == par && k < len(x.Common().Args) {
+							arg := x.Common().Args[k]
+							if !byValue {
+								obj = arg
+							} else if u, ok := arg.(*ssa.UnOp); ok && u.Op == token.MUL {
+								obj = u.X
+							}
+						}
+					}
+					if obj == nil || x.Parent() == nil {
+						continue
+					}
+					for _, cb := range x.Parent().Blocks {
+						for _, cin := range cb.Instrs {
+							if u, ok := cin.(*ssa.UnOp); ok && u.Op == token.MUL {
+								if fa, ok := u.X.(*ssa.FieldAddr); ok && fa.Field == fld && (fa.X == obj || sameAddr(fa.X, obj)) {
+									add([]ssa.Value{u})
+								}
+							}
+						}
+					}
+				}
+			}
+		}
 	case *ssa.UnOp:
 		if x.Op == token.MUL {
 			if f := fieldOf(x.X); f != nil && f.Pkg() != nil && c.dataPkgs[f.Pkg().Path()] {
@@ -135,6 +190,34 @@ func (c *allocCtx) unboundedSources(v ssa.Value) []ssa.Value {
 	}
 	c.memo[v] = out
 	return out
+}
+
+// pureAccessor: a function of one block that only reads fields of its parameters and computes with them.
+func pureAccessor(f *ssa.Function) bool {
+	if len(f.Blocks) != 1 || len(f.Blocks[0].Instrs) == 0 {
+		return false
+	}
+	for _, in := range f.Blocks[0].Instrs {
+		switch x := in.(type) {
+		case *ssa.Field, *ssa.FieldAddr, *ssa.UnOp, *ssa.BinOp, *ssa.Convert, *ssa.ChangeType, *ssa.Return, *ssa.DebugRef:
+		case *ssa.Alloc:
+			if x.Heap {
+				return false
+			}
+		case *ssa.Store:
+			// the spill of a value parameter
+			if _, isPar := x.Val.(*ssa.Parameter); !isPar {
+				return false
+			}
+			if al, ok := x.Addr.(*ssa.Alloc); !ok || al.Heap {
+				return false
+			}
+		default:
+			return false
+		}
+	}
+	_, ok := f.Blocks[0].Instrs[len(f.Blocks[0].Instrs)-1].(*ssa.Return)
+	return ok
 }
 
 // dependsOn: v's backward slice (same rules) contains one of the sources.
